@@ -668,6 +668,44 @@ fn peerup_case(rec: &mut Recorder, parents: [u32; 2], peers: [(u64, u64, u64); 2
 
 // ------------------------------------------------------------------- main
 
+/// `race` cases: T OS threads, released together, each call the REAL atomic `Register::find_or_register_bmp_router` /
+/// `find_or_register_peer` (what the accept loop, `PeerStates::add_peer_config` and mrt-file-in call) for the same K
+/// identities under one parent, in a random order, for several rounds of fresh identities. Whatever the interleaving,
+/// every identity must end up with exactly one id and the parent with exactly K children: the observation is that
+/// shape (`ids 1 1 … kids K`), which is what the model's atomic `findOrReg` yields for any merge of the programs.
+fn race_case(rec: &mut Recorder, g: &mut Gen, lvl: Lvl, nt: usize, k: usize) -> bool {
+    let reg = Arc::new(facade::new_register());
+    let parent = facade::register(&reg);                       // id 1: the unit (router level) or the router (peer level)
+    let mut pi = NONE; pi[0] = Some(1);
+    facade::update_info(&reg, parent, to_real(&pi));
+    let idents: Vec<Info> = (0..k).map(|j| { let mut q = NONE; q[PARENT] = Some(parent as u64); q[ADDR] = Some(10 + 2 * j as u64); if lvl == Lvl::Peer { q[ASN] = Some(65000 + j as u64); q[RIB] = Some(j as u64 % 3); } q }).collect();
+    let progs: Vec<Vec<usize>> = (0..nt).map(|_| { let mut v: Vec<usize> = (0..k).collect(); for i in (1..v.len()).rev() { let j = g.rng.below(i as u64 + 1) as usize; v.swap(i, j); } v }).collect();
+    let barrier = Arc::new(std::sync::Barrier::new(nt));
+    let hs: Vec<_> = progs.iter().cloned().map(|prog| {
+        let (reg, barrier, idents) = (reg.clone(), barrier.clone(), idents.clone());
+        std::thread::spawn(move || {
+            barrier.wait();
+            prog.into_iter().map(|j| {
+                let q = to_real(&idents[j]);
+                (j, match lvl { Lvl::Router => facade::find_or_register_bmp_router(&reg, q), Lvl::Peer => facade::find_or_register_peer(&reg, q) })
+            }).collect::<Vec<(usize, u32)>>()
+        })
+    }).collect();
+    let mut per: Vec<BTreeSet<u32>> = vec![BTreeSet::new(); k];
+    for h in hs { for (j, id) in h.join().expect("race thread") { per[j].insert(id); } }
+    let kids = reg.ids_for_parent(parent);
+    let prog_txt = join(progs.iter().map(|pr| join(pr.iter().map(|j| show_op(&Op::FindOrReg(lvl, idents[*j], None))), " ")), "/");
+    let line = format!("race|1|R U.1.{}|{}|{}", show_info(&pi), prog_txt, parent);
+    let imp = format!("ids {} kids {}", join(per.iter().map(|s| s.len()), " "), kids.len());
+    let ok = per.iter().all(|s| s.len() == 1) && kids.len() == k;
+    let orc = if ok { "ok".to_string() } else if per.iter().any(|s| s.len() > 1) {
+        format!("fail race:one-identity-two-ids {} callers of find_or_register for one {} identity got {} different ids", nt, if lvl == Lvl::Peer { "peer" } else { "router" }, per.iter().map(|s| s.len()).max().unwrap_or(0))
+    } else { format!("fail race:children-differ ids_for_parent reports {} children for {k} identities", kids.len()) };
+    rec.bump(if lvl == Lvl::Peer { "race.peer" } else { "race.router" });
+    rec.case(line, imp, orc, nt >= 2);
+    ok
+}
+
 fn q_peer(parent: u64, addr: u64, asn: u64) -> Info { let mut i = NONE; i[PARENT] = Some(parent); i[ADDR] = Some(addr); i[ASN] = Some(asn); i }
 
 fn main() {
@@ -691,6 +729,13 @@ fn main() {
                     let sched: Vec<usize> = p[4].split_whitespace().map(|x| x.parse().unwrap()).collect();
                     let raced = sched.len() >= 6 && sched[sched.len() - 6] != sched[sched.len() - 5];
                     peerup_case(&mut rec, [a.0, b.0], [a.1, b.1], known_before, raced);
+                }
+                "race" => {
+                    let progs: Vec<&str> = p[3].split('/').collect();
+                    let lvl = if p[3].contains("A.r.") { Lvl::Router } else { Lvl::Peer };
+                    let k = progs[0].split_whitespace().count();
+                    let mut g = Gen { rng: Rng::new(args.seed) };
+                    for _ in 0..200 { if !race_case(&mut rec, &mut g, lvl, progs.len(), k) { break; } }
                 }
                 "conc" => {
                     // a recorded merge is a sequential history: replay it as one
@@ -731,6 +776,15 @@ fn main() {
     for k in 0..nseq {
         if k % 2 == 0 { let (s, ops) = gen_free(&mut g); run_seq(&mut rec, s, ops, false); }
         else { let (s, ops) = gen_disciplined(&mut g); run_seq(&mut rec, s, ops, true); }
+    }
+
+    // 1b. races on the real atomic find_or_register_* (free-running OS threads released by a barrier)
+    let nrace = if args.thorough { 40_000 } else { 3_000 };
+    for _ in 0..nrace {
+        let lvl = g.lvl();
+        let nt = g.rng.range(2, 8) as usize;
+        let k = g.rng.range(1, 3) as usize;
+        race_case(&mut rec, &mut g, lvl, nt, k);
     }
 
     // 2. call-site programs under random schedules, distinct identities per thread population
